@@ -106,6 +106,7 @@ def run(report, tier, seed):
         lean = vlib.LeanDriver("wiredrv")
         directed(report, sc, inproc)
         multi_instance(report, sc, inproc, lean)
+        through_wrappers(report, sc, inproc, lean, quick)
         structural(report, sc, ybin, inproc, lean, seed, 150 if quick else 3000)
         rewrites(report, sc, ybin, inproc, seed, 4 if quick else 40)
         lean.close()
@@ -252,6 +253,73 @@ def multi_instance(report, sc, inproc, lean):
                 elif m.get("verdict") != verdict:
                     report.violation(f"multi-instance:verdict-differs:{ename}:{arrangement}", dict(replay, theorem_or_correspondence="Evo.protoVerdict vs ValidateEvolution"),
                                      "a change reached only through one of several instantiations of a generic did not get the verdict of the same change reached directly")
+
+
+def through_wrappers(report, sc, inproc, lean, quick):
+    """every kind of change (none / warning / error / definition changed) under every nest of wrappers up to depth 3 - optional, vector, fixed vector,
+    union case, record field, array element, map value - at a plain step and at a stream step: the tool's verdict must be the model's (for which
+    wrappers_preserve_errors is proved). A change is never lost, nor invented, by where it sits."""
+    import itertools
+    P = lambda n: ["prim", n]
+    base_changes = [("same", P("int32"), P("int32")), ("warn-int-long", P("int32"), P("int64")), ("error-bool-int", P("bool"), P("int32")),
+                    ("error-date-string", P("date"), P("string")), ("error-record-to-other-record", ["ref", "RA"], ["ref", "RB"]), ("defchanged", ["ref", "RC"], ["ref", "RC"])]
+    wrappers = {
+        "opt": lambda t: ["opt", t], "vec": lambda t: ["vec", t, None], "vec3": lambda t: ["vec", t, 3],
+        "union": lambda t: ["union", False, [["wa", ["prim", "string"]], ["wb", t]]], "nunion": lambda t: ["union", True, [["wa", ["prim", "float32"]], ["wb", t]]],
+        "arr": lambda t: ["arr", t, ["rank", 1]], "map": lambda t: ["map", ["prim", "string"], t],
+    }
+    legal_inside = {"opt": ("vec", "vec3", "arr", "map", None), "union": ("vec", "vec3", "arr", "map", None), "nunion": ("vec", "vec3", "arr", "map", None)}
+    nests = [()] + [(a,) for a in wrappers] + [(a, b) for a in wrappers for b in wrappers] + [(a, b, c) for a in ("vec", "opt", "vec3") for b in wrappers for c in ("opt", "vec", "union")]
+
+    def legal(nest):
+        # yardl: no optional / union directly inside an optional / union
+        for outer, inner in zip(nest, nest[1:] + (None,)):
+            if outer in legal_inside and inner not in legal_inside[outer]:
+                if inner is not None:
+                    return False
+        return True
+    nests = [n for n in nests if legal(n)]
+    if quick:
+        nests = [n for i, n in enumerate(nests) if len(n) <= 2 or i % 3 == 0]
+    k = 0
+    for cname, told, tnew in base_changes:
+        for nest in nests:
+            if nest and nest[-1] in ("opt", "union", "nunion") and told[0] == "ref" and False:
+                continue
+            for stream in (False, True):
+                def build(t, changed):
+                    v = evogen.Version()
+                    v.defs["RA"] = ["rec", [["a", P("int32")]], "RA"]
+                    v.defs["RB"] = ["rec", [["b", P("string")]], "RB"]
+                    v.defs["RC"] = ["rec", [["c", P("int32")]] + ([["d", ["opt", P("int32")]]] if changed else []), "RC"]
+                    v.order += ["RA", "RB", "RC"]
+                    ty = t
+                    for w in reversed(nest):
+                        ty = wrappers[w](ty)
+                    v.defs["H"] = ["rec", [["x", P("int32")], ["f", ty]], "H"]
+                    v.order.append("H")
+                    v.steps = [["direct", ty, stream], ["inField", ["ref", "H"], False]]
+                    return v
+                old, new = build(told, False), build(tnew, cname == "defchanged")
+                k += 1
+                name = f"tw{k}"
+                root = sc.path(name)
+                od = write_version(root, "old", old)
+                nd = write_version(root, "new", new, versions=[("v0", "../old")])
+                verdict, res = real_verdict(inproc, nd)
+                report.case(distinct_key=("through-wrappers", cname, nest, stream))
+                report.count("through-wrappers." + cname)
+                if verdict == "invalid":
+                    report.count("through-wrappers.rejected-as-a-model")   # the nest itself breaks a language rule
+                    continue
+                m = lean.ask({"op": "evo_proto", "new": evogen.proto_json(new), "old": evogen.proto_json(old), "new_defs": evogen.defs_json(new)})
+                replay = {"directed": f"{cname} under {'/'.join(nest) or 'nothing'} ({'stream' if stream else 'step'})", "files": files_of(od, nd), "model": m, "tool_verdict": verdict,
+                          "tool": {k2: res[k2] for k2 in res if k2 in ("evolutionError", "evolutionWarnings", "panic", "validateError", "parseError", "versionError")}}
+                if verdict in ("panic", "crash"):
+                    report.violation(f"through-wrappers:{verdict}:{cname}", replay, "comparing two individually valid versions failed")
+                elif m.get("verdict") != verdict:
+                    report.violation(f"through-wrappers:verdict-differs:{cname}:model-{m.get('verdict')}-tool-{verdict}", dict(replay, theorem_or_correspondence="Evo.protoVerdict vs ValidateEvolution"),
+                                     "a change got a different verdict because of the containers it sits in")
 
 
 def structural(report, sc, ybin, inproc, lean, seed, n):
